@@ -119,6 +119,7 @@ def run(ctx):
     symbol_digits(ctx, g)
     symbol_parts(ctx, g)
     subsymbol_shape(ctx, g)
+    exact_2d(ctx, g)
     ctx.floor("chamber-indexed tables in subsymbol", chamber_tables(ctx, "T4-chamber-table", ctx.body("derived::subsymbol"), g), 2)
     loopless_test(ctx, g)
     euler_formula(ctx, g)
@@ -518,6 +519,141 @@ def subsymbol_shape(ctx, g):
                     bad = "a chamber is numbered without `elements.contains(&d)` (the orbit of the seed) dominating the store"
     ctx.ob("T9-subsymbol", b.name, "size, dimension, maps", "ok" if not bad else "violation",
            "len(orbit(indices, seed)) chambers, dimension indices.len() - 1, inverse maps over the chambers of that orbit in 1..=size()" if not bad else bad)
+
+
+def exact_2d(ctx, g):
+    """delaney2d on value tables.  orbit_types_2d visits each index pair once: j in (i + 1)..=dim().  opposite(ds, i, j, d) walks along the
+    boundary: while the k-neighbour of e is another chamber, step to it and switch k between i and j (k := i + j - k); answers (k, e).
+    trace_boundary starts a component exactly at a mirror (i, d) not seen before.  euler_characteristic counts, for each index, the chambers that
+    are their own neighbour.  cone_degrees keeps exactly the loopless orbits with v >= 2.  The symbol of the trivial cases: "*" -> "1*", "" -> "1",
+    "x" -> "1x" """
+    ctx.clauses.append("delaney2d exactness: pair loop (i + 1)..=dim; boundary walk k := i + j - k until a mirror; components start at unseen mirrors; loop count polarity; cones iff loopless and v >= 2; trivial symbols 1, 1*, 1x (T4)")
+    b = ctx.body(M + "orbit_types_2d")
+    ctx.scan(ctx.facts.with_closures(b.name))
+    bad = None
+    reps = [[strip(norm(b.origin(x), g)) for x in t["args"]] for bi, t in b.calls("DSet::orbit_reps_2d")]
+    if len(reps) != 1:
+        bad = "%d orbit_reps_2d calls" % len(reps)
+    else:
+        i_t, j_t = reps[0][1], reps[0][2]
+        ri, rj = loop_range_of_payload(b, i_t, g), loop_range_of_payload(b, j_t, g)
+        lo = unov_deep(strip(rj[0])) if rj else None
+        if not (ri and rj and eval_int(ri[0]) == 0 and not ri[2] and is_call(strip(ri[1]), "::dim") and lo == ("binop", "Add", i_t, ("int", 1)) and rj[2] and is_call(strip(rj[1]), "::dim")):
+            bad = "the index pairs are not i in 0..dim(), j in (i + 1)..=dim() (each pair once, no pair twice, none with itself)"
+    ctx.ob("T4-exact-2d", b.name, "pairs i < j", "ok" if not bad else "violation", "i in 0..dim(), j in (i + 1)..=dim()" if not bad else bad)
+    ob = ctx.body(M + "opposite")
+    ds, i_, j_, d_ = (("param", k, ob.debug.get(k, "")) for k in (1, 2, 3, 4))
+    bad = None
+    ret = strip(norm(ob.local_origin(0), g))
+    if not (ret[0] == "agg" and len(ret[2]) == 2 and all(strip(x)[0] == "local" for x in ret[2])):
+        bad = "the answer is not the pair (k, e) of the walk"
+    else:
+        k, e = strip(ret[2][0]), strip(ret[2][1])
+        kd = [strip(norm(d, g)) for dbb, d in ob.all_defs_origins(k[1])]
+        ed = [strip(norm(d, g)) for dbb, d in ob.all_defs_origins(e[1])]
+        kup = [d for d in kd if d != i_]
+        eup = [d for d in ed if d != d_]
+        okk = len(kd) == 2 and i_ in kd and len(kup) == 1 and all(eval_term_env(unov_deep(kup[0]), {i_: a, j_: c, k: kv}) == want for a, c, kv, want in ((0, 1, 0, 1), (0, 1, 1, 0), (1, 2, 1, 2), (1, 2, 2, 1), (0, 2, 2, 0)))
+        oke = len(ed) == 2 and d_ in ed and len(eup) == 1 and is_call(eup[0], "Option::<T>::unwrap") and is_call(strip(eup[0][2][0]), "DSet::op") and [strip(z) for z in strip(eup[0][2][0])[2]] == [ds, k, e]
+        ex = [atom_norm(a, g) for hh, bl in natural_loops(ob) for e_, ats in loop_exit_atoms(ob, hh, bl, g) for a in ats]
+        okx = any(x[0] == "rel" and x[1] == "Eq" and e in (strip(x[2]), strip(x[3])) and
+                  any(is_call(strip(z), "Option::<T>::unwrap_or") and is_call(strip(strip(z)[2][0]), "DSet::op") and [strip(w) for w in strip(strip(z)[2][0])[2]] == [ds, k, e] for z in (x[2], x[3])) for x in ex)
+        if not okk:
+            bad = "k does not start at i and switch between i and j (k := i + j - k)"
+        elif not oke:
+            bad = "e does not start at d and step to op(k, e)"
+        elif not okx:
+            bad = "the walk does not stop exactly at a chamber that is its own k-neighbour (a mirror)"
+    ctx.ob("T4-exact-2d", ob.name, "boundary walk", "ok" if not bad else "violation", "k = i, e = d; while op(k, e) != e: e = op(k, e), k = i + j - k; answer (k, e)" if not bad else bad)
+    tb = ctx.body(M + "trace_boundary")
+    bad = None
+    seeds = {bi for bi, t in tb.calls("Vec::<T, A>::push") if is_call(strip(norm(tb.origin(t["args"][1]), g)), "best_cyclic")}
+    first = {bi for bi, t in tb.calls("DSym::v")}
+    sites = first or seeds
+    for mirror, seen, want in ((1, 0, True), (0, 0, False), (1, 1, False), (0, 1, False)):
+        def val(y, mirror=mirror, seen=seen):
+            if y[0] == "call" and y[1].endswith("PartialEq::ne") and any(is_call(strip(z), "DSet::op") for z in y[2]):
+                return 0 if mirror else 1
+            if y[0] == "call" and y[1].endswith("PartialEq::eq") and any(is_call(strip(z), "DSet::op") for z in y[2]):
+                return 1 if mirror else 0
+            if y[0] == "call" and y[1].endswith("::contains") and contains(y, lambda z: z[0] == "field" and z[2] == "0" and strip(z[1])[0] == "variant"):
+                return seen
+            return None
+        r = reachable_sites(tb, g, sites, val)
+        if bool(r) != want and not bad:
+            bad = "at a chamber that is %s mirror of index i and %s as (i, d): a boundary component is %s" % ("a" if mirror else "no", "already seen" if seen else "not yet seen", "traced" if r else "not traced")
+    if not bad:
+        oc = [(bi, [strip(norm(tb.origin(x), g)) for x in t["args"]]) for bi, t in tb.calls(M + "opposite")]
+        if len(oc) != 1 or not all(x[0] == "local" for x in oc[0][1][1:]):
+            bad = "not one opposite(ds, k, j, e) step on the walk's variables"
+        else:
+            K, J, E = oc[0][1][1:4]
+            res = ("call", M + "opposite", tuple(oc[0][1]))
+            lb = set()
+            for hh, bl in natural_loops(tb):
+                if oc[0][0] in bl:
+                    lb = set(bl) if not lb or len(bl) < len(lb) else lb
+            ind = lambda l: [strip(norm(d, g)) for dbb, d in tb.all_defs_origins(l[1]) if dbb in lb]
+            full = lambda t_: map_term(t_, lambda y: norm(tb.local_origin(y[1]), g) if y[0] == "local" and tb.is_stable_local(y[1]) else None)
+            ed = [strip(full(x)) for x in ind(E)]
+            jd = [strip(full(x)) for x in ind(J)]
+            jd = [strip(full(strip(norm(d, g)))) for x in jd for d in ([x] if x[0] != "local" else [dd for _, dd in tb.all_defs_origins(x[1])])]
+            ins = [strip(norm(tb.origin(t["args"][1]), g)) for bi, t in tb.calls("HashSet::<T, S, A>::insert") if bi in lb] or [strip(norm(tb.origin(t["args"][1]), g)) for bi, t in tb.calls("::insert") if bi in lb]
+            con = [strip(norm(tb.origin(t["args"][1]), g)) for bi, t in tb.calls("::contains") if bi in lb]
+            vv = [[strip(norm(tb.origin(x), g)) for x in t["args"]] for bi, t in tb.calls("DSym::v") if bi in lb]
+            if ed != [("field", res, "1")]:
+                bad = "the chamber does not continue at the second component of opposite(..): %s" % [show(x, 1)[:40] for x in ed]
+            elif ("field", res, "0") not in jd:
+                bad = "the mirror index does not continue with the first component of opposite(..)"
+            elif ins != [("agg", "tuple", (J, E))] or con != [("agg", "tuple", (J, E))]:
+                bad = "the visited mirrors are not recorded and tested as (j, e)"
+            elif not (len(vv) == 1 and {vv[0][1], vv[0][2]} == {J, K} and vv[0][3] == E):
+                bad = "the corner degree is not v(j, k, e)"
+    ctx.ob("T4-exact-2d", tb.name, "components start at unseen mirrors", "ok" if not bad and sites else "violation", "4 combinations" if not bad and sites else (bad or "no tracing site"))
+    eb = ctx.body(M + "euler_characteristic")
+    ctx.scan(ctx.facts.with_closures(eb.name))
+    bad = None
+    fl = [cb for cb in ctx.facts.with_closures(eb.name) if "{closure#1}::{closure#0}" in cb.name]
+    if len(fl) != 1:
+        bad = "the loop count is not a filter over the chambers"
+    else:
+        r = strip(norm(fl[0].local_origin(0), g))
+        okq = (is_call(r, "PartialEq::eq") or (r[0] == "binop" and r[1] == "Eq"))
+        args = [strip(x) for x in (r[2] if r[0] == "call" else r[2:4])] if okq else []
+        okq = okq and any(is_call(x, "DSet::op") for x in args) and any(x[0] == "agg" and x[1].endswith("Option::Some") for x in args)
+        if not okq:
+            bad = "the chambers counted are not those with op(i, d) == Some(d): %s" % show(r, 1)[:60]
+    ctx.ob("T4-exact-2d", eb.name, "loops counted", "ok" if not bad else "violation", "nr_loops(i) counts the chambers with op(i, d) == Some(d)" if not bad else bad)
+    cb_ = ctx.body(M + "cone_degrees")
+    ctx.scan(ctx.facts.with_closures(cb_.name))
+    fc = [c for c in ctx.facts.with_closures(cb_.name) if c.name.endswith("{closure#0}")]
+    bad = None
+    if len(fc) != 1:
+        bad = "no filter closure"
+    else:
+        c = fc[0]
+        rets = {}
+        for cv, vv, want in ((1, 1, False), (1, 2, True), (1, 5, True), (0, 2, False), (0, 1, False)):
+            def val(y, cv=cv, vv=vv):
+                if y[0] in ("field", "deref") and c.local_ty(0) is not None:
+                    t_ = strip(y)
+                    if t_[0] == "field" and str(t_[2]) == "1":
+                        return cv
+                    if t_[0] == "field" and str(t_[2]) == "0":
+                        return vv
+                return None
+            got = bool_results(c, g, val)
+            if got != {want}:
+                bad = bad or "an orbit that is %s with v = %d is %s as a cone (cones are the loopless orbits with v >= 2)" % ("loopless" if cv else "on a mirror", vv, "kept" if True in got else "not kept")
+    ctx.ob("T4-exact-2d", cb_.name, "cones = loopless && v > 1", "ok" if not bad else "violation", "5 combinations" if not bad else bad)
+    sb = ctx.body(M + "orbifold_symbol")
+    strs = set(str_consts_in(sb))
+    for (n_, k_), pb in ctx.facts.promoted.items():
+        if n_ == sb.name:
+            strs |= set(str_consts_in(pb if hasattr(pb, "live_blocks") else Body(pb, ctx.facts)))
+    ok = {"1x", "1*", "1"} <= strs and not ({"2*", "0*", "2", "0", "0x", "2x"} & strs)
+    ctx.ob("T4-exact-2d", sb.name, "trivial symbols", "ok" if ok else "violation",
+           "the empty, `*` and `x` symbols are written 1, 1* and 1x" if ok else "the trivial symbols are not written 1 / 1* / 1x: string constants %s" % sorted(strs))
 
 
 def symbol_digits(ctx, g):
